@@ -308,10 +308,14 @@ func runOpts(raw json.RawMessage, seed int64, rec *Rec) {
 	}
 	nsend := 2
 	armed := true
-	pv := func(at int) {
+	pv := func(at int) error {
+		if armed && s.Panic != nil && s.Panic.Value == "fail" && s.Panic.At == at {
+			return connect.NewError(connect.CodeAborted, errors.New("handler")) // no panic: an ordinary error
+		}
 		if armed && s.Panic != nil && s.Panic.Value != "none" && s.Panic.At == at {
 			panic(panicValue(s.Panic.Value))
 		}
+		return nil
 	}
 	// option values are reusable: generated constructors apply the same values once per procedure. Build a
 	// first, unused client and handler from them and observe the second application.
@@ -325,31 +329,40 @@ func runOpts(raw json.RawMessage, seed int64, rec *Rec) {
 	switch kind {
 	case "unary":
 		h = connect.NewUnaryHandler(e2eProc, func(_ context.Context, r *connect.Request[BV]) (*connect.Response[BV], error) {
-			pv(0)
+			if err := pv(0); err != nil {
+				return nil, err
+			}
 			return connect.NewResponse(&BV{Value: []byte{1}}), nil
 		}, hopts...)
 	case "client":
 		h = connect.NewClientStreamHandler(e2eProc, func(_ context.Context, cs *connect.ClientStream[BV]) (*connect.Response[BV], error) {
-			pv(0)
+			if err := pv(0); err != nil {
+				return nil, err
+			}
 			for cs.Receive() {
 			}
-			pv(1)
+			if err := pv(1); err != nil {
+				return nil, err
+			}
 			return connect.NewResponse(&BV{Value: []byte{1}}), nil
 		}, hopts...)
 	case "server":
 		h = connect.NewServerStreamHandler(e2eProc, func(_ context.Context, r *connect.Request[BV], ss *connect.ServerStream[BV]) error {
 			for i := 0; i < nsend; i++ {
-				pv(i)
+				if err := pv(i); err != nil {
+					return err
+				}
 				if err := ss.Send(&BV{Value: []byte{byte(i + 1)}}); err != nil {
 					return err
 				}
 			}
-			pv(nsend)
-			return nil
+			return pv(nsend)
 		}, hopts...)
 	default:
 		h = connect.NewBidiStreamHandler(e2eProc, func(_ context.Context, bs *connect.BidiStream[BV, BV]) error {
-			pv(0)
+			if err := pv(0); err != nil {
+				return err
+			}
 			n := 0
 			for {
 				m, err := bs.Receive()
@@ -360,7 +373,9 @@ func runOpts(raw json.RawMessage, seed int64, rec *Rec) {
 				if err := bs.Send(m); err != nil {
 					return err
 				}
-				pv(n)
+				if err := pv(n); err != nil {
+					return err
+				}
 			}
 			return nil
 		}, hopts...)
